@@ -224,6 +224,31 @@ pub fn random_key(out: &mut Out, coll: &str, rng: &mut Rng, cfg: &RandCfg) {
     r.end();
 }
 
+/// histories that fill the arena exactly (every slot up to the last one in use), with a mix of
+/// short- and long-lived entries, then query / export at a time that expires the short-lived ones
+pub fn arena_edge(out: &mut Out, coll: &str, rng: &mut Rng, rounds: usize) {
+    for round in 0..rounds {
+        for &cap in &[0usize, 1, 8, 9, 16] {
+            let c0 = cap.max(8) as i64;
+            for &n in &[c0 - 1, 2 * c0 - 1, c0 - 2, c0] {
+                let mut r = Runner::new(out, &format!("edge-{}", coll), coll, cap, 0);
+                let mut keys: Vec<i64> = (0..n).collect();
+                for j in (1..keys.len()).rev() { let k = rng.below(j as u64 + 1) as usize; keys.swap(j, k); }
+                for (i, k) in keys.iter().enumerate() {
+                    // the entries inserted last (they occupy the highest slots) are preferably short-lived
+                    let short = if i + 2 >= keys.len() { rng.chance(3, 4) } else { rng.chance(1, 3) };
+                    let exp = if short { rng.range(1, 5) } else { rng.range(6, 12) };
+                    r.step(&Op::new("insert", &[*k, exp, 100 * *k + round as i64, 0]), None);
+                }
+                let t = rng.range(1, 6);
+                if rng.chance(1, 2) { r.step(&Op::new(["fl", "fle", "get"][rng.below(3) as usize], &[t, rng.range(-1, n)]), None); }
+                r.step(&Op::new("export", &[t]), None);
+                r.end();
+            }
+        }
+    }
+}
+
 /// corpus file: `<coll> <variant> <cap> :: op ; op ; …` per line, `#` comments
 pub fn corpus(out: &mut Out, path: &str) -> usize {
     let text = match std::fs::read_to_string(path) { Ok(t) => t, Err(_) => return 0 };
